@@ -306,6 +306,30 @@ def _source_size(ctx, repo) -> None:
     ctx.require(bool(sig_names) and isinstance(lz["depth"], ast.Name),
                 f"{f.qualname}: sigma/depth are not tuple variables")
     sigma_var, depth_var = sig_names[0], lz["depth"].id
+    # necessary condition, decided before the shape of the construction is read: *where* the non-zero sigma
+    # entries go must depend on which ensemble axes are scan axes (_scan_axes(measurements)) — by data or by a
+    # controlling test.  A construction that assumes a position (e.g. "the scan axes are the last ensemble axes")
+    # filters along the wrong axes as soon as another ensemble axis follows a scan axis.
+    for var, what in ((sigma_var, "sigma"), (depth_var, "depth")):
+        use = lz["call"] if what == "depth" else eg["call"]
+        at_use = df.cfg.node_of(_stmt_of(f, use)).idx
+        sl = df.backward_slice(at_use, ast.Name(id=var, ctx=ast.Load()))
+        exprs = []
+        for n_ in sl.def_nodes:
+            st_ = df.cfg.nodes[n_].ast
+            if st_ is None:
+                continue
+            exprs.append(st_)
+            for i_ in walk_no_nested(f.node):
+                if isinstance(i_, (ast.If, ast.While)) and any(x is st_ for b in (i_.body + i_.orelse) for x in ast.walk(b)):
+                    exprs.append(i_.test)
+        dep = any(isinstance(c_, ast.Call) and (call_name(c_) or "").split(".")[-1] == "_scan_axes"
+                  for e_ in exprs for c_ in ast.walk(e_))
+        ctx.check(dep, "R-SRCAXES", f"{f.qualname}:{what} placement", f.loc(use),
+                  f"the placement of the {what} entries depends on _scan_axes(measurements)",
+                  f"the per-axis {what} tuple `{var}` is built without consulting _scan_axes(measurements): the non-zero "
+                  "entries are placed at assumed positions, so with an ensemble axis after or between the scan axes "
+                  "the Gaussian is applied along the wrong axes", key_detail="placement")
     scan_terms = {}
     for var, what in ((sigma_var, "sigma"), (depth_var, "depth")):
         contribs = _appends(f, var, df)
